@@ -78,8 +78,12 @@ class World (object):
       o.append(("poutf", k)); o.append(("poutc", k))
       # MODIFY / MODIFY_STRICT carrying a buffer: applies to the packet whether it modified an entry or acted as ADD
       o.append(("fmodm", k)); o.append(("fmods", k))
+      # an action list the switch refuses half way (output, then a vendor action): the id is used up all the same
+      o.append(("poutv", k))
     for v in (0, 64, 128, 0xffff):
       if v != self.miss_len: o.append(("cfg", v))
+    # a frame that comes in a packet-out, is rewritten by the action list and resubmitted to the (missing) table
+    o.append(("poutt", "dl")); o.append(("poutt", "vlan"))
     return o
 
   def apply (self, op):
@@ -131,8 +135,56 @@ class World (object):
       elif emitted:
         self.fail("rx:unexpected-emission", "frame sent to the controller was also emitted on %r" % [a for a, b in emitted])
       return ("rx", p["buffer_id"] != W.NO_BUFFER, len(p["data"]))
+    if kind == "poutt":
+      tag = self.free_tag()
+      f = frame(1, 200, tag)
+      if op[1] == "dl":
+        acts = W.a_set_dl_dst(MAC_NEW); g = MAC_NEW + f[6:]
+      else:
+        acts = W.a_set_vlan_vid(5); g = f[:12] + b"\x81\x00\x00\x05" + f[12:]
+      self.ftag[g] = tag
+      st.feed(W.packet_out(self.nxid(), acts + W.a_output(W.OFPP_TABLE), f, in_port=1))
+      emitted = st.take_out()
+      msgs, rest = W.split(st.drain())
+      ds = [W.decode(m) for m in msgs]
+      pins = [d for d in ds if d["type"] == W.PACKET_IN]
+      if emitted: self.fail("rx:unexpected-emission", "a packet-out resubmitted to an empty-handed table emitted frames on %r" % [a for a, b in emitted])
+      if len(pins) != 1 or any(d["type"] == W.ERROR for d in ds):
+        self.fail("rx:packet-in-count", "packet-out [rewrite, output:TABLE] that misses produced %d packet-ins / %d errors"
+                  % (len(pins), len([d for d in ds if d["type"] == W.ERROR]))); return ("poutt", len(pins))
+      p = pins[0]
+      if p["in_port"] != 1 or p["reason"] != W.OFPR_NO_MATCH:
+        self.fail("rx:packet-in-fields", "packet-in in_port/reason %r/%r, expected 1/no-match" % (p["in_port"], p["reason"]))
+      if p["total_len"] != len(g):
+        self.fail("rx:total-len", "packet-in total_len %d, the resubmitted (rewritten) frame has %d bytes" % (p["total_len"], len(g)))
+      if p["buffer_id"] == W.NO_BUFFER:
+        if len(self.out) < self.pool:
+          self.fail("rx:not-buffered", "packet-in without a buffer id although %d of %d buffers are free" % (self.pool - len(self.out), self.pool))
+        if p["data"] != g:
+          self.fail("rx:unbuffered-truncated", "unbuffered packet-in carries %d bytes that are not the %d-byte rewritten frame" % (len(p["data"]), len(g)))
+      else:
+        bid = p["buffer_id"]
+        if bid in self.out: self.fail("rx:duplicate-id", "buffer id %d handed out while still outstanding" % bid)
+        if len(self.out) >= self.pool:
+          self.fail("rx:over-capacity", "buffer id %d handed out with %d outstanding and %d advertised" % (bid, len(self.out), self.pool))
+        if not g.startswith(p["data"]) or len(p["data"]) > self.miss_len:
+          self.fail("rx:data-length", "buffered packet-in carries %d bytes (limit %d) / not a prefix of the rewritten frame" % (len(p["data"]), self.miss_len))
+        self.out[bid] = (g, 1)
+      return ("poutt", p["buffer_id"] != W.NO_BUFFER, len(p["data"]))
     # buffer use
     k = op[1]
+    if kind == "poutv":
+      f, inp = self.out[k]
+      st.feed(W.packet_out(self.nxid(), W.a_output(TARGET) + W.a_vendor(0x2320, b"\0\0\0\0"), b"", buffer_id=k, in_port=W.OFPP_NONE))
+      emitted = st.take_out()
+      msgs, rest = W.split(st.drain())
+      ds = [W.decode(m) for m in msgs]
+      if not any(d["type"] == W.ERROR and d["etype"] == W.OFPET_BAD_ACTION for d in ds):
+        self.fail("use:vendor-action-not-refused", "an action list with an unknown vendor action was not answered with a bad-action error")
+      if emitted not in ([], [(TARGET, f)]):
+        self.fail("use:wrong-frame", "refused action list on buffer %d emitted %r" % (k, [(a, len(b)) for a, b in emitted]))
+      self.out.pop(k); self.last_used = k
+      return ("use-refused", len(emitted))
     if kind in ("poutf", "poutc"):
       f, inp = self.out[k]
       acts = W.a_output(W.OFPP_FLOOD) if kind == "poutf" else W.a_output(W.OFPP_CONTROLLER, 64)
